@@ -5,8 +5,9 @@ pid = sys.argv[1]
 for l in open('/verif/properties.jsonl'):
     d = json.loads(l)
     if d['id'] == pid: break
-wt = "/tmp/wt/%s" % pid
-out = "/tmp/wt/%s_out" % pid
+base = sys.argv[2] if len(sys.argv) > 2 else "/tmp/wt"
+wt = "%s/%s" % (base, pid)
+out = "%s/%s_out" % (base, pid)
 print(f"""You are testing how robust a project's quality gates are. You work ONLY inside the scratch git worktree {wt} (a checkout of the pynetdicom repository: pure-Python DICOM networking library) and the output directory {out}. Never read or touch /repo, /verif or any other worktree under /tmp/wt.
 
 Python: /venv/bin/python. IMPORTANT: /venv has pynetdicom installed from another location, so to import YOUR copy always run with `cd {wt} && PYTHONPATH={wt} /venv/bin/python ...` and verify once with `PYTHONPATH={wt} /venv/bin/python -c "import pynetdicom; print(pynetdicom.__file__)"` (must print a path under {wt}). No network is available.
@@ -25,6 +26,6 @@ YOUR TASK: write a realistic source change (a plausible bug a developer could in
 
 DELIVERABLES (write them into {out}/, create the directory):
   1. patch.diff  - output of `cd {wt} && git diff` (source change only).
-  2. demo.py (or demo_test.py) - a small self-contained program that demonstrates the violation: run as `cd {wt} && PYTHONPATH={wt} /venv/bin/python {out}/demo.py` it must exit NON-ZERO (or fail) WITH your change applied and exit 0 WITHOUT it (check both; do NOT use `git stash` - the stash is shared between all worktrees of this repository and other people are working in sibling worktrees - instead use `git diff > /tmp/wt/{pid}_out/patch.diff && git apply -R /tmp/wt/{pid}_out/patch.diff` to remove your change and `git apply /tmp/wt/{pid}_out/patch.diff` to put it back). It should finish in under 60 s and be deterministic (if it depends on timing, make it robust, e.g. retry loops or explicit synchronisation).
+  2. demo.py (or demo_test.py) - a small self-contained program that demonstrates the violation: run as `cd {wt} && PYTHONPATH={wt} /venv/bin/python {out}/demo.py` it must exit NON-ZERO (or fail) WITH your change applied and exit 0 WITHOUT it (check both; do NOT use `git stash` - the stash is shared between all worktrees of this repository and other people are working in sibling worktrees - instead use `git diff > {out}/patch.diff && git apply -R {out}/patch.diff` to remove your change and `git apply {out}/patch.diff` to put it back). It should finish in under 60 s and be deterministic (if it depends on timing, make it robust, e.g. retry loops or explicit synchronisation).
   3. meta.json - {{"property": "{pid}", "summary": "<what the change does>", "needs_to_manifest": "<the specific input / interleaving / sequence needed>", "files_touched": [...], "tests_run": "<commands you ran and their result summaries>", "demo_with_change": "<exit code/observed>", "demo_without_change": "<exit code/observed>"}}
 Leave the worktree with your change applied (uncommitted). Do not commit. Keep the change small (ideally < 15 changed lines). In your final answer, summarise the change, what it needs to manifest, and the test results in a few lines.""")
